@@ -5,3 +5,4 @@ pub mod smt;
 pub mod fee;
 pub mod validity;
 pub mod flatmem;
+pub mod big;
